@@ -247,6 +247,7 @@ impl Mach {
             }
             Err(_) => {
                 ctx.stats.bump("fault.oom_result");
+                ctx.oom_seen = true;
                 if !self.cfg.oom_ok {
                     ctx.violate(
                         &["C14", "C05"],
@@ -508,7 +509,7 @@ impl Mach {
     /// nodes inside them aborts the process (recorded as a known finding under C14). All
     /// other workloads stay clear of that situation.
     pub fn low_capacity(&self, need: usize, ctx: &mut RunCtx) -> bool {
-        if !backend_has_capacity() || self.cfg.capacity >= 4096 {
+        if !backend_has_capacity() || self.cfg.capacity >= 4096 || self.cfg.unguarded {
             return false;
         }
         let used = self.mref.with_manager_shared(|m| m.num_inner_nodes());
@@ -556,6 +557,8 @@ impl Mach {
     pub fn audit_impl(&mut self, ins: Option<&Instr>, model: &Model, ctx: &mut RunCtx) {
         let mut s = self.snapshot();
         let n = s.n;
+        ctx.peak_inner = ctx.peak_inner.max(s.num_inner);
+        ctx.peak_terms = ctx.peak_terms.max(s.num_terminals);
         let ip = ins.map(prop_of).unwrap_or("C03");
         // A5 maps
         if n != model.n {
@@ -944,5 +947,46 @@ impl Machine for Mach {
     }
     fn finish(&mut self, model: &mut Model, ctx: &mut RunCtx) {
         self.finish_impl(model, ctx);
+    }
+    fn retry(&mut self, ins: &Instr, model: &mut Model, ctx: &mut RunCtx) -> Option<RetryInfo> {
+        let keep = ins.operands();
+        if keep.iter().any(|r| self.reg(*r).is_none()) {
+            return None;
+        }
+        for r in 0..NREGS {
+            if !keep.contains(&(r as Reg)) {
+                self.regs[r] = None;
+                model.regs[r] = None;
+            }
+        }
+        for sl in 0..NSUBST {
+            if ins.subst_slot() != Some(sl as u8) {
+                self.substs[sl] = None;
+                model.substs[sl] = None;
+            }
+        }
+        if ins.subst_slot().is_some_and(|sl| self.substs[sl as usize].is_none()) {
+            return None;
+        }
+        self.x.clear();
+        self.written.clear();
+        let (live, live_terms) = self.mref.with_manager_shared(|m| {
+            m.gc();
+            (m.num_inner_nodes(), m.num_terminals())
+        });
+        let writes = model.eval(ins);
+        self.step(ins, model, ctx);
+        let (after, after_terms) = self.mref.with_manager_shared(|m| (m.num_inner_nodes(), m.num_terminals()));
+        let ok = match &writes {
+            Some(w) => w.iter().all(|(d, e)| e.is_none() || self.regs[*d as usize].is_some()),
+            None => return None,
+        };
+        Some(RetryInfo {
+            live,
+            delta: after.saturating_sub(live),
+            live_terms,
+            delta_terms: after_terms.saturating_sub(live_terms),
+            ok,
+        })
     }
 }
